@@ -303,6 +303,79 @@ theorem C01_policy_in_force_is_policyBefore (W : World) (hpo : W.PolicyRefOnly) 
     simp only [Option.bind_some]
     exact loadRaw_policyAt W p P hload
 
+/-- the predicate of the unrestricted look-up `latestFor attestationsRef` -/
+def attUpd (W : World) (x : Nat) : Bool :=
+  match W.log[x]? with
+  | none => false
+  | some e => isUpdater e && e.ref == attestationsRef
+
+theorem latestFor_att_eq (W : World) (m : Nat) :
+    W.latestFor attestationsRef m = lastBelow W.attUpd m := by
+  unfold latestFor lastBelow
+  congr 1
+  funext x
+  cases h : W.log[x]? <;> simp [attUpd, h]
+
+/-- **C01, the declarative "attestation state immediately preceding the entry"**: the attestation
+state under which the accepted walk judged an entry of the range (`attInForce`) is Spec/C01's
+`attBefore` — the state recorded by the latest attestation entry strictly before it in the whole
+log, inside the range or before it. -/
+theorem C01_att_in_force_is_attBefore (W : World) (hao : W.AttRefOnly) (first : Nat)
+    (a0 : Option AttState) (hinit : W.initialAtt first = .ok a0)
+    (j : Nat) (e : LogEntry) (hj : first ≤ j) (he : W.log[j]? = some e) (hne : e.ref ≠ attestationsRef) :
+    W.attInForce first a0 j = W.attBefore j := by
+  cases hk : lastBelow (W.isAttK first) j with
+  | some k => exact attInForce_eq_attBefore W first a0 j k hao hk
+  | none =>
+    simp only [attInForce, hk]
+    have hnone := lastBelow_eq_none _ _ hk
+    have hgap : ∀ x, first ≤ x → x < j → W.attUpd x = false := by
+      intro x hx1 hx2
+      have hnx := hnone x hx2
+      unfold attUpd
+      cases hex : W.log[x]? with
+      | none => rfl
+      | some ex =>
+        simp only
+        cases hux : isUpdater ex with
+        | false => simp
+        | true =>
+          cases hrx : (ex.ref == attestationsRef) with
+          | false => simp
+          | true =>
+            have hkind := hao x ex hex (by simpa using hrx) hux
+            simp [isAttK, hex, hkind, hrx, hx1] at hnx
+    unfold initialAtt at hinit
+    split at hinit
+    · cases hinit
+    · rename_i fe hfe
+      -- the first entry of the range is not an attestation updater
+      have hfe_not : (isUpdater fe && fe.ref == attestationsRef) = false := by
+        rcases Nat.lt_or_ge first j with hlt | hge
+        · have := hgap first (Nat.le_refl _) hlt
+          simpa [attUpd, hfe] using this
+        · have hjf : j = first := by omega
+          subst hjf
+          rw [hfe] at he; cases he
+          have : (e.ref == attestationsRef) = false := by simpa using hne
+          simp [this]
+      simp only [hfe_not, Bool.false_eq_true, if_false] at hinit
+      have hlat : W.latestFor attestationsRef j = W.latestFor attestationsRef first := by
+        rw [latestFor_att_eq, latestFor_att_eq]
+        exact lastBelow_run' W.attUpd first j hj (fun x h1 h2 => hgap x h1 h2)
+      unfold attBefore
+      rw [hlat]
+      split at hinit
+      · rename_i hsel
+        cases hinit
+        simp [hsel]
+      · rename_i a hsel
+        split at hinit
+        · rename_i s hs
+          cases hinit
+          simp [hsel, hs]
+        · cases hinit
+
 /-- executable form of `PolicyRefOnly` -/
 def policyRefOnlyB (W : World) : Bool :=
   W.log.all (fun e => !(e.ref == policyRef && isUpdater e) || e.kind == .ref)
